@@ -43,14 +43,14 @@ RULE = {
         "disconnected/size-1 features, random or pathfinder initial tree, 1-14 ops over 1-3 live trees drawn from "
         "reconfigure/forest/anneal/temper/remove/project/restore/unslice/slice/slice_and_reconfigure/sort/reset/copy "
         "and cache-filling observers); after every op every live tree is contracted on a deepcopy snapshot and "
-        "compared with numpy.einsum. distinct_nontrivial counts distinct (tree-shape hash, sliced/projected set, "
+        "compared with numpy.einsum (float64, complex128 or strictly positive int64 arrays). distinct_nontrivial counts distinct (tree-shape hash, sliced/projected set, "
         "bitmap of populated per-node cache fields, last op kind) states reached after at least one mutating op."
     ),
     "C04": (
         "same seeded histories as C02 (own seeds); after every op every live tree's figures (contract_stats, totals, "
         "max/peak size, combo cost, multiplicity, sliced_inds, sliced_inputs, node set, children, per-node "
         "legs/involved key sets, size, flops, preprocessing) are compared on a deepcopy snapshot with a tree rebuilt "
-        "from (get_path(), sliced_inds). distinct_nontrivial as for C02."
+        "from (get_path(), sliced_inds), with a forced recount, and with figures recomputed from first principles (inputs, output, sizes, sliced indices, pairing order). distinct_nontrivial as for C02."
     ),
 }
 
